@@ -132,7 +132,10 @@ func newWeightedRandomLoadBalancer(servers []*Server) *WeightedRandomLoadBalance
 		},
 	}
 	for _, server := range servers {
-		lb.totalWeight += server.Weight
+		// a server with a non-positive weight has no share.
+		if server.Weight > 0 {
+			lb.totalWeight += server.Weight
+		}
 	}
 	return lb
 }
@@ -143,8 +146,18 @@ func (lb *WeightedRandomLoadBalancer) ChooseServer(req *httpprot.Request) *Serve
 		return nil
 	}
 
+	// No server has a positive weight (the spec validation accepts that, and
+	// service discovery may report it): rand.Intn panics for a non-positive
+	// argument, so treat the servers as equally weighted in that case.
+	if lb.totalWeight <= 0 {
+		return lb.Servers[rand.Intn(len(lb.Servers))]
+	}
+
 	randomWeight := rand.Intn(lb.totalWeight)
 	for _, server := range lb.Servers {
+		if server.Weight <= 0 {
+			continue
+		}
 		randomWeight -= server.Weight
 		if randomWeight < 0 {
 			return server
